@@ -164,7 +164,7 @@ def r7(repo, res):
     n = 0
     for trial in range(60 if thorough() else 12):
         ncn = rnd.randint(1, 3)
-        cns = [Obj(label=f"C{i}", _solution_nice=(lambda i=i: f"C{i}"), position_cn=lambda p: 2) for i in range(ncn)]
+        cns = [Obj(label=f"C{i}", _solution_nice=(lambda i=i: f"C{i}"), position_cn=lambda p: 2, max_cn=lambda: 2, solution={"1": 2}, region_cn=[{}]) for i in range(ncn)]
         rnd.shuffle(cns)
         majors = []
         for j in range(rnd.randint(1, 5)):
